@@ -400,3 +400,105 @@ def check_owning_drops(ctx, res, prop):
                    detail=why, key="%s.3:%s:drop-discipline" % (prop, adt), loc=span_str(db.span), rule="%s.3 owning-iterator drop" % prop,
                    msg="`Drop for %s`: %s" % (adt, "; ".join(why)))
     res.floor("%s.3 owning iterator drops" % prop, n, 2)
+
+
+# =====================================================================================================================
+#  C15: retain
+# =====================================================================================================================
+def c15(ctx, res):
+    r = ctx.roles
+    b = r.method("retain")
+    if b is None or b.vis != "pub":
+        res.violate("C15:anchor-missing:retain", "pub fn retain not found", None, {}, "anchors")
+        return
+    te = _te(ctx, True)
+    try:
+        paths = te.paths(b, max_visits=2, max_paths=200)
+    except TooComplex as e:
+        res.violate("C15:too-complex", str(e), span_str(b.span), {}, "C15")
+        return
+    seal = "*p1.%s" % r.SEAL
+    sealp = "p1.%s.%s" % (r.SEAL, r.EPTR_RAW)
+    cur0 = "**%s.%s" % (sealp, r.L_LRU)                       # the handle stored in the seal's LRU link
+    ent0 = "***%s.%s.%s" % (sealp, r.L_LRU, r.EPTR_RAW)       # the entry it points to
+    key0 = "std::mem::MaybeUninit::<K>::assume_init_ref(&%s.%s)" % (ent0, r.E_KEY)
+    val0 = "std::mem::MaybeUninit::<V>::assume_init_ref(&%s.%s)" % (ent0, r.E_VAL)
+    cur1 = "%s.%s" % (ent0, r.L_LRU)
+    loc = span_str(b.span)
+    n_iter = 0
+    probs = []
+    kinds = set()
+    for p in paths:
+        pr = te.eval_path(b, p)
+        conds = [(show(d), ch) for (d, ch, _bb) in pr.conds]
+        if not conds:
+            probs.append("a path has no loop test at all")
+            continue
+        # first test: cursor0 != seal
+        d0, ch0 = conds[0]
+        is_ne = "PartialEq>::ne(" in d0
+        is_eq = "PartialEq>::eq(" in d0 or " Eq " in d0
+        if not ((is_ne or is_eq) and (cur0 in d0) and (seal in d0)):
+            probs.append("the loop is not controlled by comparing the handle read from the seal's LRU link with the seal: `%s`" % d0[:160])
+            continue
+        entered = (ch0 != 0) if is_ne else (ch0 == 0)
+        user = [(x[1], [show(a) for a in x[2]], x[4]) for x in pr.calls if x[4] is not None and x[4].user_kind == "closure"]
+        removes = [(x[1], [show(a) for a in x[2]], x[4]) for x in pr.calls
+                   if x[4] is not None and x[4].target is not None and any(cls == "remove" for (_p, (cls, _c)) in ctx.eff.trans(x[4].target)["table"])]
+        promos = [x for x in pr.calls if x[4] is not None and x[4].target is not None and
+                  any(ctx.eff.is_link_writer(ctx.facts.body(pp)) for pp in ctx.cg.reach(x[4].target) if ctx.facts.body(pp) is not None)
+                  and not any(cls == "remove" for (_p, (cls, _c)) in ctx.eff.trans(x[4].target)["table"])]
+        if not entered:
+            kinds.add("skip")
+            if user or removes:
+                probs.append("predicate or removal executed although the traversal is at the seal")
+            continue
+        n_iter += 1
+        # (2) exactly one predicate call, on the visited entry's own key and value
+        if len(user) != 1:
+            probs.append("the predicate is called %d times for one entry" % len(user))
+            continue
+        args = user[0][1]
+        tup = args[1] if len(args) > 1 else ""
+        if not (key0 in tup and val0 in tup and tup.index(key0) < tup.index(val0)):
+            probs.append("the predicate does not receive the visited entry's key and value: %s" % tup[:200])
+        # which way did the predicate go on this path?
+        pc = [(d, ch) for (d, ch) in conds if "call_mut" in d or "FnMut" in d or "as std::ops::Fn" in d]
+        if len(pc) != 1:
+            probs.append("the predicate's result is tested %d times" % len(pc))
+            continue
+        verdict = pc[0][1] != 0      # True = keep
+        neg = pc[0][0].startswith("!")
+        if neg:
+            verdict = not verdict
+        kinds.add("keep" if verdict else "reject")
+        # (3) removal iff rejected, by the visited entry's key
+        if verdict and removes:
+            probs.append("an entry the predicate wants to keep is removed")
+        if (not verdict) and len(removes) != 1:
+            probs.append("a rejected entry is removed %d times" % len(removes))
+        if (not verdict) and removes:
+            ra = removes[0][1]
+            if not any(key0 in a for a in ra[1:]):
+                probs.append("the removal does not use the visited entry's own key: %s" % [a[:120] for a in ra])
+        if promos:
+            probs.append("retain relinks an entry (%s): survivors must keep their place" % promos[0][1])
+        # (4) next cursor: the visited entry's LRU-side link
+        later = [d for (d, ch) in conds[1:] if ("PartialEq>::ne(" in d or "PartialEq>::eq(" in d) and seal in d]
+        if not later:
+            probs.append("no second loop test after visiting an entry")
+        else:
+            d1 = later[-1]
+            if cur1 not in d1:
+                probs.append("after visiting an entry the traversal does not continue with that entry's LRU-side link: `%s`" % d1[:200])
+    res.count("C15 retain iteration paths", n_iter)
+    for k in ("skip", "keep", "reject"):
+        if k not in kinds:
+            probs.append("no path of kind '%s' found" % k)
+    uniq = sorted(set(probs))
+    res.oblige("C15 retain: start at the seal's LRU link, stop at the seal, one predicate call per entry on its own key/value, remove iff rejected "
+               "by that entry's key, continue with the visited entry's LRU-side link, survivors untouched", not uniq, detail=uniq,
+               key="C15:retain-shape", loc=loc, rule="C15 retain traversal",
+               msg="retain: %s" % "; ".join(uniq))
+    res.sample({"iteration_paths": n_iter, "kinds": sorted(kinds), "cursor": cur0, "next_cursor": cur1})
+    res.assumptions.append("exactly-once and LRU-to-MRU order follow from these clauses together with the list-shape invariant (C07, not decided)")
